@@ -466,8 +466,11 @@ def fact_matches(rx_, fact):
     (atom, truth) = fact
     if truth == neg:
         return False
-    if re.search(rx_, show_fact((atom, True))) is not None:
+    txt_ = show_fact((atom, True))
+    if re.search(rx_, txt_) is not None:
         return True
+    if "~" in txt_ and re.search(rx_, re.sub(r"~\d+", "", txt_)) is not None:
+        return True      # `name~2` is the analyser's label for a second local called `name` (shadowing, an inlined helper's local)
     # `x == Enum::V` is the same test as the match arm `x is V`: patterns are written in the `is` form
     if atom[0] == "eq":
         for x_, y_ in ((atom[1], atom[2]), (atom[2], atom[1])):
